@@ -59,6 +59,32 @@ func Nestings(md protoreflect.MessageDescriptor, maxDepth int, leaf func(md prot
 			seen[key] = true
 			ws = append(ws, w)
 		}
+		// message- and group-typed extensions nest like fields do
+		for _, xt := range Extensions(md) {
+			xd := xt.TypeDescriptor()
+			if xd.Message() == nil || xd.IsList() {
+				continue
+			}
+			n := xd.Number()
+			var w wrapper
+			cls := "extmsg"
+			if xd.Kind() == protoreflect.GroupKind {
+				cls = "extgroup"
+				w = wrapper{fmt.Sprintf("x%d:group", n), func(inner []byte) []byte {
+					return protowire.AppendTag(append(protowire.AppendTag(nil, n, protowire.StartGroupType), inner...), n, protowire.EndGroupType)
+				}, xd.Message(), 1}
+			} else {
+				w = wrapper{fmt.Sprintf("x%d:msg", n), func(inner []byte) []byte {
+					return protowire.AppendBytes(protowire.AppendTag(nil, n, protowire.BytesType), inner)
+				}, xd.Message(), 1}
+			}
+			key := cls + string(w.next.FullName())
+			if seen[key] {
+				continue
+			}
+			seen[key] = true
+			ws = append(ws, w)
+		}
 		return ws
 	}
 	var out []Rec
